@@ -11,7 +11,9 @@
  *                                                   packed back to back (neighbours belong to different threads)
  *   D <slot|S> <view> <op> <path> <fidx> <val16> <base>     header operation
  *   V <dt> <withdest> <cap> <base> <hex>             decode the VSS value of a private message
- * output: one line per D / V command:  "<tid> <index> R ..." (same format as the executor)
+ *   A <k> <dt> <hexlogical>                         shared SOURCE array k (0..3) of datatype dt: several threads encode from it
+ *   W <k> <base> <hex>                              encode (putdata) the shared array k into a private message
+ * output: one line per D / V / W command:  "<tid> <index> R ..." (same format as the executor)
  */
 #define main exec_main
 #include "exec.c"
@@ -28,6 +30,7 @@ typedef struct { Cmd* cmds; size_t n, capn; char* out; size_t outn, outcap; uint
                } Thr;
 static Thr thr[MAXT];
 static uint8_t* shared; static size_t sharedlen;
+static struct { int dt; uint8_t* host; size_t n; } sarr[4];      /* shared source arrays (host-typed), read by every thread */
 static pthread_barrier_t bar;
 
 static void outf(Thr* t, const char* s, size_t n)
@@ -56,6 +59,13 @@ static void* worker(void* arg)
             int n = snprintf(tmp, sizeof tmp, "%d %zu R %s ", t->tid, i, r.nobind ? "nobind" : "ok"); outf(t, tmp, n);
             out64(t, r.ret); n = snprintf(tmp, sizeof tmp, " %ld ", r.rc); outf(t, tmp, n); out64(t, r.out); outf(t, " ", 1);
             outhex(t, a, alen); outf(t, " 0\n", 3);
+        } else if (c->kind == 'W') {
+            VssData_t data; GenArr arr; memset(&data, 0xCD, sizeof data);
+            arr.data_length = (uint16_t)sarr[c->slot].n; arr.data = sarr[c->slot].host;
+            data.data_string = (VssDataString_t*)&arr;
+            Avtp_Vss_SetVssData((Avtp_Vss_t*)(c->bytes + c->base), &data);
+            int n = snprintf(tmp, sizeof tmp, "%d %zu R ok 0000000000000000 0 0000000000000000 ", t->tid, i); outf(t, tmp, n);
+            outhex(t, c->bytes, c->n); outf(t, " 0 len=0 data=- dirty=0\n", 24);
         } else if (c->kind == 'V') {
             VssData_t data; GenArr arr; memset(&data, 0xCD, sizeof data);
             int es = elem_size(c->dt);
@@ -92,6 +102,11 @@ int main(int argc, char** argv)
         for (char* p = strtok(line, " \t\r\n"); p && n < 16; p = strtok(NULL, " \t\r\n")) tok[n++] = p;
         if (!n) continue;
         if (tok[0][0] == 'S' && n >= 3) { sharedlen = unhex(tok[2], buf, sizeof buf); shared = malloc(sharedlen + 1); memcpy(shared, buf, sharedlen); continue; }
+        if (tok[0][0] == 'A' && n >= 4) {
+            int k = atoi(tok[1]) & 3; static uint8_t lb[1 << 16];
+            sarr[k].dt = atoi(tok[2]); sarr[k].n = unhex(tok[3], lb, sizeof lb); sarr[k].host = malloc(sarr[k].n + 8);
+            to_host(lb, sarr[k].host, sarr[k].n, elem_size(sarr[k].dt)); continue;
+        }
         if (tok[0][0] == 'T') { cur = atoi(tok[1]); if (cur >= MAXT) return 2; if (cur + 1 > nt) nt = cur + 1; thr[cur].tid = cur; continue; }
         if (cur < 0) continue;
         Thr* t = &thr[cur];
@@ -104,6 +119,9 @@ int main(int argc, char** argv)
             strncpy(c->op, tok[3], 11); strncpy(c->path, tok[4], 11); c->fidx = atol(tok[5]);
             uint8_t vb[8]; unhex(tok[6], vb, 8); c->val = be64x(vb); c->base = atol(tok[7]);
             if (!c->v) continue;
+        } else if (c->kind == 'W' && n >= 4) {
+            c->slot = atoi(tok[1]) & 3; c->base = atol(tok[2]);
+            c->n = unhex(tok[3], buf, sizeof buf); c->bytes = malloc(c->n + 8); memcpy(c->bytes, buf, c->n);
         } else if (c->kind == 'V' && n >= 6) {
             c->dt = atoi(tok[1]); c->withdest = atoi(tok[2]); c->cap = atol(tok[3]); c->base = atol(tok[4]);
             c->n = unhex(tok[5], buf, sizeof buf); c->bytes = malloc(c->n + 8); memcpy(c->bytes, buf, c->n);
